@@ -130,6 +130,7 @@ pub fn run_range(
     stride: u64,
     skip: &[u64],
     shrink_here: bool,
+    already_minimised: &mut BTreeSet<String>,
     crash_file: Option<PathBuf>,
     mut progress: impl FnMut(u64),
 ) -> Agg {
@@ -195,10 +196,16 @@ pub fn run_range(
         i += stride;
     }
     // minimise (bounded number of keys per worker)
-    for (n, (_k, (ix, f))) in per_key_min.into_iter().enumerate() {
-        if shrink_here && n < 24 {
+    for (k, (ix, f)) in per_key_min.into_iter() {
+        // a signature is minimised once per worker (a broken tree raises the same
+        // ones in every segment), and at most 24 of them
+        if already_minimised.contains(&k) {
+            continue;
+        }
+        if shrink_here && already_minimised.len() < 24 {
+            already_minimised.insert(k);
             agg.minimised.push(minimise(&f, ix, 1500));
-        } else {
+        } else if !shrink_here {
             let original_size = case_size(&f.case);
             agg.minimised.push(Minimised {
                 property: f.violation.property.to_string(),
@@ -441,7 +448,7 @@ pub struct ReplayFile {
 }
 
 pub fn write_replay(m: &Minimised, seed: u64, tier: Tier, process_death: bool) -> Result<PathBuf, String> {
-    let dir = out_root().join("replays").join(&m.property);
+    let dir = std::env::var("VERIF_REPLAY_OUT").map(PathBuf::from).unwrap_or_else(|_| out_root()).join("replays").join(&m.property);
     std::fs::create_dir_all(&dir).map_err(|e| e.to_string())?;
     let mut mon = Mon::new(true);
     if !process_death {
@@ -754,6 +761,7 @@ pub fn check(exe: &Path, prop: &str, tier: Tier) -> i32 {
             "other_property_signatures_seen": other_props,
             "known_findings_matched": known_matched,
             "components": components(),
+            "no_fast_float_build": std::env::var("VERIF_EXTRA_EVIDENCE").ok().and_then(|p| std::fs::read_to_string(p).ok()).and_then(|s| serde_json::from_str::<serde_json::Value>(&s).ok()).map(|v| serde_json::json!({"evaluations": v["coverage"]["evaluations"], "simulated_runs": v["coverage"]["simulated_runs"], "violations": v["violations"], "hook_site_hits": v["coverage"]["hook_site_hits"], "wall_s": v["wall_s"], "determinism_digest": v["coverage"]["determinism_digest"]})),
             "build_profile": "release, opt-level 2, debug-assertions on, overflow-checks on, panic=unwind; worker main thread stack 2 MiB"
         },
         "assumptions": assumptions_of(prop),
@@ -826,9 +834,10 @@ pub fn worker_main(prop: &str, tier: Tier, seed: u64, start: u64, end: u64, stri
     let seg = 256 * stride;
     let mut a = start;
     let mut last_hits = [0u64; lexpr::verif::SITES];
+    let mut minimised_keys = BTreeSet::new();
     while a < end {
         let b = (a + seg).min(end);
-        let mut agg = run_range(prop, tier, seed, a, b, stride, skip, true, None, |i| {
+        let mut agg = run_range(prop, tier, seed, a, b, stride, skip, true, &mut minimised_keys, None, |i| {
             let mut o = stdout.lock();
             let _ = writeln!(o, "B {}", i);
             let _ = o.flush();
@@ -855,7 +864,7 @@ pub fn worker_main(prop: &str, tier: Tier, seed: u64, start: u64, end: u64, stri
 }
 
 pub fn one_main(prop: &str, tier: Tier, seed: u64, index: u64, crash_file: &Path) -> i32 {
-    let agg = run_range(prop, tier, seed, index, index + 1, 1, &[], false, Some(crash_file.to_path_buf()), |_| {});
+    let agg = run_range(prop, tier, seed, index, index + 1, 1, &[], false, &mut BTreeSet::new(), Some(crash_file.to_path_buf()), |_| {});
     println!("{}", serde_json::to_string(&agg).unwrap());
     0
 }
